@@ -810,20 +810,33 @@ pub fn contract_integer_set_expression<C: Ctx>(cx: &mut C) {
         let o1 = cx.choose(3);
         let (b, ib) = any_operand(cx);
         if !cx.assume(!ib.is_empty()) { return; }
-        let (rest, irest, mrest): (ElementOrSetOperation, Iv, Box<dyn Fn(i128) -> bool>) = if n == 2 {
-            (ElementOrSetOperation::Element(b), ib, Box::new(move |v| ib.contains(v)))
+        // X.680 clause 50: EXCEPT binds tighter than INTERSECTION, INTERSECTION tighter than UNION; the lexer nests the
+        // chain to the right, so the TREE is a o1 (b o2 c) while the MEANING is (a o1 b) o2 c when o1 binds tighter
+        let prec = |o: usize| match o { 0 => 0, 1 => 1, _ => 2 };
+        let apply = |o: usize, l: bool, r: bool| match o { 0 => l || r, 1 => l && r, _ => l && !r };
+        let rest: ElementOrSetOperation;
+        if n == 2 {
+            rest = ElementOrSetOperation::Element(b);
+            reference = combine(ia, ib, o1);
+            member = Box::new(move |v| apply(o1, ia.contains(v), ib.contains(v)));
         } else {
             let o2 = cx.choose(3);
             let (c, ic) = any_operand(cx);
             if !cx.assume(!ic.is_empty()) { return; }
-            let r = combine(ib, ic, o2);
-            if !cx.assume(!r.is_empty()) { return; }
-            (ElementOrSetOperation::SetOperation(SetOperation { base: b, operator: ops[o2].clone(), operant: Box::new(ElementOrSetOperation::Element(c)) }), r,
-             Box::new(move |v| match o2 { 0 => ib.contains(v) || ic.contains(v), 1 => ib.contains(v) && ic.contains(v), _ => ib.contains(v) && !ic.contains(v) }))
-        };
-        reference = combine(ia, irest, o1);
+            rest = ElementOrSetOperation::SetOperation(SetOperation { base: b, operator: ops[o2].clone(), operant: Box::new(ElementOrSetOperation::Element(c)) });
+            if prec(o1) > prec(o2) {
+                let left = combine(ia, ib, o1);
+                if !cx.assume(!left.is_empty()) { return; }
+                reference = combine(left, ic, o2);
+                member = Box::new(move |v| apply(o2, apply(o1, ia.contains(v), ib.contains(v)), ic.contains(v)));
+            } else {
+                let right = combine(ib, ic, o2);
+                if !cx.assume(!right.is_empty()) { return; }
+                reference = combine(ia, right, o1);
+                member = Box::new(move |v| apply(o1, ia.contains(v), apply(o2, ib.contains(v), ic.contains(v))));
+            }
+        }
         if !cx.assume(!reference.is_empty()) { return; }
-        member = Box::new(move |v| match o1 { 0 => ia.contains(v) || mrest(v), 1 => ia.contains(v) && mrest(v), _ => ia.contains(v) && !mrest(v) });
         set = ElementOrSetOperation::SetOperation(SetOperation { base: a, operator: ops[o1].clone(), operant: Box::new(rest) });
     }
     let outer_marker = cx.any_bool();
